@@ -127,11 +127,11 @@ func vCaseC10(t *rapid.T, st *verifkit.Stats) {
 		t.Fatal(err)
 	}
 	defer e.Close()
-	modes := []repository.CompressionMode{repository.CompressionAuto, repository.CompressionOff, repository.CompressionMax}
-	modeName := map[repository.CompressionMode]string{repository.CompressionAuto: "auto", repository.CompressionOff: "off", repository.CompressionMax: "max"}
+	modes := []repository.CompressionMode{repository.CompressionAuto, repository.CompressionOff, repository.CompressionFastest, repository.CompressionMax}
+	modeName := map[repository.CompressionMode]string{repository.CompressionAuto: "auto", repository.CompressionOff: "off", repository.CompressionFastest: "fastest", repository.CompressionMax: "max"}
 	// CompressionMax is drawn rarely: every repository open with it initialises zstd's
 	// best-compression encoders (tens of MB cleared per open), which dominates the run time
-	base := modes[rapid.SampledFrom([]int{0, 0, 0, 0, 0, 0, 0, 1, 1, 1, 1, 2}).Draw(t, "compression")]
+	base := modes[rapid.SampledFrom([]int{0, 0, 0, 0, 0, 0, 1, 1, 1, 1, 2, 2, 2, 3}).Draw(t, "compression")]
 	h.Comp = modeName[base]
 	h.CompMix = h.Version == "2" && rapid.IntRange(0, 3).Draw(t, "compmix") == 0
 	// nonSingle: blobs of one content may exist / be rewritten in different encodings
@@ -139,7 +139,7 @@ func vCaseC10(t *rapid.T, st *verifkit.Stats) {
 	e.gopts.Compression = base
 	setComp := func() string {
 		if h.CompMix {
-			e.gopts.Compression = modes[rapid.SampledFrom([]int{0, 0, 0, 1, 1, 1, 1, 2}).Draw(t, "opcomp")]
+			e.gopts.Compression = modes[rapid.SampledFrom([]int{0, 0, 0, 1, 1, 1, 2, 2, 2, 3}).Draw(t, "opcomp")]
 			return "[" + modeName[e.gopts.Compression] + "]"
 		}
 		return ""
